@@ -24,6 +24,8 @@ def histories(rnd, count, nops, maxsize):
                 sc.append('consume %d' % rnd.choice([0, 1, 1, 2, 3, size // 2, size + 1, rnd.randint(0, size + 1)]))
             elif r < 0.65:
                 sc.append('consume_at_most %d' % rnd.choice([0, 1, 2, 3, size, size + 1, rnd.randint(0, size + 1)]))
+            elif r < 0.68:
+                sc.append('%s %d' % (rnd.choice(['addhuge', 'consumehuge', 'camhuge']), rnd.choice([0, 1, 2, size, rnd.randint(0, size + 1)])))
             elif r < 0.80:
                 sc.append('rewind')
             elif r < 0.84:
